@@ -215,8 +215,8 @@ func famC15(g *Gen, o *Out, n int, thorough bool) {
 			selName = fmt.Sprintf("depth%d", dep)
 			dup = g.pick(2) == 0
 		}
-		dp := []uint64{0, 0, 5, 64}[g.pick(4)]
-		ip := []uint64{0, 0, 9}[g.pick(3)]
+		dp := []uint64{0, 0, 5, 64, 4096, 4097, 5000, 10000, 70000}[g.pick(9)]
+		ip := []uint64{0, 0, 9, 4097, 9000}[g.pick(5)]
 		idx := []string{"mh", "sorted", "none"}[g.pick(3)]
 		opts := []carv2.Option{carv2.AllowDuplicatePuts(dup), carv2.UseDataPadding(dp), carv2.UseIndexPadding(ip)}
 		switch idx {
@@ -269,6 +269,10 @@ func famC15(g *Gen, o *Out, n int, thorough bool) {
 		{
 			d.loads = nil
 			p := tmpPath(fmt.Sprintf("c15-%d.car", c))
+			os.Remove(p)
+			if g.pick(3) == 0 { // a destination that already exists and is longer than the output
+				os.WriteFile(p, g.bytes(90000+g.pick(5000)), 0o644)
+			}
 			err := carv2.TraverseToFile(ctx, &d.ls, d.root, sel, p, opts...)
 			res := "r=" + classifyTrav(err)
 			if err == nil {
